@@ -176,6 +176,12 @@ func runMergePlan(c *Ctx, i int, rng *rand.Rand, class string, slice int) {
 				// keep field lists identical: every leaf gets the same synonym/vector fields or none
 				o.Syn, o.Vec = false, false
 			}
+		case "empty-merged":
+			if (i/len(planClasses))%2 == 0 {
+				// identical field lists: the emptied segment and the live ones are byte-copied
+				o.Names, o.Terms = sharedNames, sharedTerms
+				o.Syn, o.Vec = false, false
+			}
 		case "empty-inputs":
 			if l == rng.Intn(nLeaves) || rng.Intn(3) == 0 {
 				cl = "empty"
@@ -336,9 +342,12 @@ func runMergePlan(c *Ctx, i int, rng *rand.Rand, class string, slice int) {
 				if nLeaves > 2 && rng.Intn(2) == 0 {
 					st.inputs = append(st.inputs, 2)
 				}
-				if rng.Intn(3) == 0 {
+				switch where := rng.Intn(3); {
+				case where == 0:
 					st.inputs = append([]int{pool - 1}, st.inputs...) // empty one first
-				} else {
+				case where == 1 && len(st.inputs) == 2:
+					st.inputs = []int{st.inputs[0], pool - 1, st.inputs[1]} // between two live ones
+				default:
 					st.inputs = append(st.inputs, pool-1) // live ones first
 				}
 			}
